@@ -1,0 +1,24 @@
+"""Event tracing for the verification harness in /verif.
+
+Disabled unless the environment variable TEALER_VERIF is set to 1; when disabled, emit() does nothing.
+"""
+import os
+from typing import Any, Dict, List
+
+_EVENTS: List[Dict[str, Any]] = []
+
+
+def enabled() -> bool:
+    return os.environ.get("TEALER_VERIF") == "1"
+
+
+def emit(event: Dict[str, Any]) -> None:
+    if enabled():
+        _EVENTS.append(event)
+
+
+def take() -> List[Dict[str, Any]]:
+    """Return the recorded events and forget them."""
+    events = list(_EVENTS)
+    _EVENTS.clear()
+    return events
